@@ -27,7 +27,7 @@ MUTATORS = ["norm", "asexp", "asexp_rev", "early", "diff_early", "embed", "at", 
 
 def jobs(tier, seed):
     js = []
-    pools = ["A", "B", "C", "D", "E", "F", "G", "H", "I", "J"]
+    pools = ["A", "B", "C", "D", "E", "F", "G", "H", "I", "J", "K", "L"]
     hists = []
     for pool in pools:
         for t in ("e1", "e2", "e3", "s"):
